@@ -2,6 +2,7 @@
 from __future__ import annotations
 
 import hashlib
+import os
 import inspect
 import time
 import traceback
@@ -256,10 +257,18 @@ def check_function(function, setup, call, clauses, *, mode, label="", bounded=Fa
                 continue
             except Exception as e:
                 tb = traceback.format_exc(limit=4)
-                # a clause that cannot even be evaluated on the result: the result does not
-                # have the shape the contract requires
-                out.append(ob(function, cl.name, oid_label, "violated", mode=mode, bounded=bounded,
-                              reason=f"clause not evaluable on the result: {type(e).__name__}: {e}",
+                # A clause that cannot be evaluated.  If the exception comes out of the code under contract (the clause
+                # called the real code, e.g. a query, and IT raised) the contract is broken; if it comes out of the
+                # contract text itself (an attribute the harness expected is gone, an index out of range in the spec
+                # code) nothing has been refuted: undecided, the harness needs attention.
+                t_ = e.__traceback__
+                while t_ is not None and t_.tb_next is not None:
+                    t_ = t_.tb_next
+                fn_ = t_.tb_frame.f_code.co_filename if t_ is not None else ""
+                from .install import REPO
+                in_repo = os.path.realpath(fn_).startswith(os.path.realpath(REPO) + os.sep)
+                out.append(ob(function, cl.name, oid_label, "violated" if in_repo else "undecided", mode=mode, bounded=bounded,
+                              reason=f"clause not evaluable on the result: {type(e).__name__}: {e} (raised in {fn_})",
                               path=p.cond_str(), trace=tb, model=None, replayed=None,
                               seconds=0.0, backend="eval"))
                 continue
@@ -327,7 +336,7 @@ def check_function(function, setup, call, clauses, *, mode, label="", bounded=Fa
     # (or a shim) misrepresents the code -- reported as undecided (exit 2), never as a verdict about the property
     import os
     ncc = int(os.environ.get("RVERIF_CROSSCHECK", "0") or 0)
-    if ncc and mode == "D" and out and all(o["status"] == "discharged" for o in out):
+    if ncc and mode == "D" and replay is not None and out and all(o["status"] == "discharged" for o in out):
         hit = native_sampling(setup, call, clauses, allow_exc, n=ncc, seed=__import__("zlib").crc32(label.encode()) % 100000)
         stats["crosscheck_samples"] = ncc
         if hit:
